@@ -27,7 +27,9 @@ ASSUMPTIONS = ["the property speaks of *adding*: a rename onto an existing name 
 NAMES = [None, None, None, "Table 1", "table 1", "TABLE 2", "Table 2", "Table 3", "Sheet 2", "sheet 1", "SHEET 3", "Sheet 1", "X", "x", "", "Ünï", "ünÏ",
          "Table 10", "Sheet 10", "A" * 300, "Table  1", " Table 1", "表", "Table 01", "ǅ", "ß", "SS", "İ",
          # not in normalisation form C (the name given is the name kept and found), and their precomposed twins (different names)
-         "Re\u0301sume\u0301", "R\u00e9sum\u00e9", "\u212b", "\u00c5", "Stra\u00dfe", "STRASSE", "\u03c2igma", "\u03c3igma"]
+         "Re\u0301sume\u0301", "R\u00e9sum\u00e9", "\u212b", "\u00c5", "Stra\u00dfe", "STRASSE", "\u03c2igma", "\u03c3igma",
+         # names that read as numbers (a name is a name: lookup by the string finds that item, not a position)
+         "2024", "0", "1", "2", "-1", "007", "+3", "\u0661", "1e3", " 2 ", "0x10", "True", "None"]
 
 
 def rule(tier):
@@ -205,6 +207,10 @@ def run_history(ops, rec, case, init=None, save_points=()):
             cls = name_class(nm, sib)
             classes.append(("add_table", cls))
             kw = {} if nm is None else {"table_name": nm}
+            # where the table is placed and how big it is has nothing to do with the order of the collection
+            for a in ("x", "y", "num_rows", "num_cols"):
+                if a in op:
+                    kw[a] = op[a]
             r, t = log.call(op, lambda: doc.sheets[si].add_table(**kw))
             if cls.startswith("dup"):
                 rec.count("explicit_duplicates_tried")
@@ -313,7 +319,15 @@ def rand_history(rng):
                 op["table_name"] = rng.choice(["Table 1", "First", "table 2"])
             ops.append(op)
         elif c < .7:
-            ops.append({"op": "add_table", "sheet": rng.randrange(6), "name": rng.choice(NAMES)})
+            op = {"op": "add_table", "sheet": rng.randrange(6), "name": rng.choice(NAMES)}
+            k2 = rng.random()
+            if k2 < .25:
+                op["x"], op["y"] = float(rng.choice([0, 300, 600, 900])), float(rng.choice([0, 0, 40, 500, 2000]))
+            elif k2 < .35:
+                op["x"] = float(rng.choice([0, 600]))
+            if rng.random() < .3:
+                op["num_rows"], op["num_cols"] = rng.choice([1, 3, 30]), rng.choice([1, 2, 6])
+            ops.append(op)
         elif c < .85:
             ops.append({"op": "rename_table", "sheet": rng.randrange(6), "table": rng.randrange(6), "name": rng.choice([n for n in NAMES if n is not None] + ["Renamed", "R2"])})
         else:
